@@ -441,6 +441,10 @@ package shell_operator
 //@        && forall(k, old(nUnlock), nUnlock, unlockIds[k] == lastMeta.(task_metadata.HookMetadata).MonitorIDs[k - old(nUnlock)]))
 //@        || (nUpdateMeta == old(nUpdateMeta) && nUnlock == old(nUnlock) + len(metaOf(t, ep0).(task_metadata.HookMetadata).MonitorIDs)
 //@        && forall(k, old(nUnlock), nUnlock, unlockIds[k] == metaOf(t, ep0).(task_metadata.HookMetadata).MonitorIDs[k - old(nUnlock)])))
+//@   ensures [successful-synchronization-unlocks @C06,C01] dyntype(metaOf(t, ep0), task_metadata.HookMetadata) && len(metaOf(t, ep0).(task_metadata.HookMetadata).BindingContext) > 0
+//@        && metaOf(t, ep0).(task_metadata.HookMetadata).BindingContext[0].Metadata.BindingType == "kubernetes" && metaOf(t, ep0).(task_metadata.HookMetadata).BindingContext[0].Type == kemTypes.TypeSynchronization
+//@        && result.Status == "Success" ==> (nUpdateMeta > old(nUpdateMeta) && nUnlock == old(nUnlock) + len(lastMeta.(task_metadata.HookMetadata).MonitorIDs))
+//@           || (nUpdateMeta == old(nUpdateMeta) && nUnlock == old(nUnlock) + len(metaOf(t, ep0).(task_metadata.HookMetadata).MonitorIDs))
 //@   ensures [no-extra-tasks]       len(result.HeadTasks) == 0 && len(result.TailTasks) == 0 && len(result.AfterTasks) == 0
 //@   loop 1
 //@     invariant nUnlock >= old(nUnlock) && res.Status == "Success"
